@@ -33,7 +33,7 @@ func genCase(rt *rapid.T, run *ev.Run, nInputs int) *Case {
 
 func genCase1(rt *rapid.T, run *ev.Run, nInputs int) *Case {
 	o := cfggen.Opts{Shapes: true, Styles: true, Sugar: rapid.IntRange(0, 9).Draw(rt, "sugar") < 6,
-		Err: rapid.IntRange(0, 9).Draw(rt, "err") == 0}
+		Err: rapid.IntRange(0, 9).Draw(rt, "err") == 0, HugePct: 1}
 	g := cfggen.GenG(rt, o)
 	lx := loxb.Front1(g.Lox())
 	if lx.Panic != nil || !lx.OK {
